@@ -20,7 +20,7 @@ import re
 
 from ..alg import AlgError, Context, Rat
 from ..extract import Extractor, Closure, Opaque, _dotted
-from ..model import Program, walk_own, is_self_attr, dotted
+from ..model import strip_comments, Program, walk_own, is_self_attr, dotted
 from ..report import AnalysisError
 from ..slices import Affine
 from .. import locsets, stagger
@@ -32,7 +32,7 @@ LOCS = ("centre", "xlow", "ylow", "corners")
 
 
 def T(mod, node):
-    return " ".join(mod.text(node).split())
+    return " ".join(strip_comments(mod.text(node)).split())
 
 
 def run(rep, tier):
@@ -152,7 +152,7 @@ def r2_r3(prog, rep, fz):
         got = hand.get(loc)
         ok = got is not None and got[0] == srcloc and isinstance(got[1], Affine) and got[1] == Affine(0, 1)
         rep.ob("R3", "hand-over: next region's zShift.%s starts from this region's %s at logical y = ny" % (loc, srcloc), ok, fz.site(), str(got), key="chain/handover/" + loc)
-    src = "".join(mod.text(fz.node).split())
+    src = mod.code(fz.node)
     rep.ob("R3", "the chain stops at a missing neighbour or on return to the first region", 'if(next_regionisNone)or(next_regionisself):' in src and 'next_region=region.getNeighbour("upper")' in src, fz.site(), "", key="chain/stop")
     rep.ob("R3", "the next region becomes the current one", "region=next_region" in src, fz.site(), "", key="chain/advance")
     # ShiftAngle
@@ -164,7 +164,7 @@ def r2_r3(prog, rep, fz):
                 if isinstance(st, ast.Assign):
                     la = stagger.loc_array(st.targets[0])
                     if la and T(mod, la[0]) == "self.ShiftAngle":
-                        sa[la[1]] = "".join(mod.text(st.value).split())
+                        sa[la[1]] = mod.code(st.value)
                         guard = s
     want = {"centre": "(region.zShift.ylow[:,-1]-self.zShift.ylow[:,0]).reshape((-1,1))", "xlow": "(region.zShift.corners[:,-1]-self.zShift.corners[:,0]).reshape((-1,1))"}
     for loc, w in want.items():
